@@ -175,6 +175,8 @@ def state_prefixes(conf, tier):
         'opensent': list(up),
         'openconfirm': up + [{'k': 'chunk', 'c': 0, 'hex': of['std']}],
         'established': list(est),
+        # some time after the timers of the session were armed (a request that re-arms one of them shows)
+        'established_later': est + [{'k': 'advance', 'dt': 7}],
         'stopped': est + [{'k': 'stop'}],
         'stopped_closed': est + [{'k': 'stop'}, {'k': 'lost', 'c': 0}],
         'idle_after_session': est + [{'k': 'chunk', 'c': 0, 'hex': NOTIF}],
@@ -395,6 +397,7 @@ class Pair(object):
         self.steps.append({'req': req})
         oracle(self.res, self, req, out)
         oracle_counters(self.res, self, req, out)
+        oracle_timers(self.res, self, req, out)
         mreq = R.model_request(req)
         if mreq is None:
             self.res.stats.skipped += 1
@@ -554,6 +557,17 @@ def oracle_counters(res, pair, req, out):
                 req['method'], req['rule'], name, d, wrote.get(name, 0)),
                 dict(pair.case(), request=req, answer=out['resp'], outs=out['obs']['outs']), key='rest-sent-counter')
             return
+
+
+def oracle_timers(res, pair, req, out):
+    """C03 on REST requests: asking the agent to send something (or to tell its state) does not move the keepalive or the
+    hold timer - "a KEEPALIVE at least every H/3 seconds" holds whatever the application sends in between."""
+    b, a = out['before'], out['after']
+    if req['rule'].endswith('manual-start') or req['rule'].endswith('manual-stop'):
+        return
+    if b.get('state') in ('OPENCONFIRM', 'ESTABLISHED') and a.get('state') == b.get('state') and b.get('timers') != a.get('timers'):
+        res.fail('C03', '%s %s moved the session timers: %r -> %r' % (req['method'], req['rule'], b.get('timers'), a.get('timers')),
+                 dict(pair.case(), request=req, answer=out['resp']), key='rest-moves-timers')
 
 
 def describe_change(out):
